@@ -21,7 +21,7 @@ Ext(f, k, v) == [x \in DOMAIN f \cup {k} |-> IF x = k THEN v ELSE f[x]]
 Get(f, k, d) == IF k \in DOMAIN f THEN f[k] ELSE d
 NewTx == [okKeys |-> {}, seenKeys |-> {}, cneKeys |-> {}, ops |-> <<>>, primaries |-> {}, primaryOK |-> FALSE, primaryMaybe |-> FALSE,
           commits |-> {}, mincs |-> {}, advise |-> 0, hbAfterEnd |-> 0, ended |-> FALSE, buffer |-> <<>>, hasBuffer |-> FALSE, bufPess |-> FALSE, bufAlevel |-> "off",
-          tsoAtCommit |-> 0, async |-> FALSE, onepcSets |-> {}, otherSets |-> {}, rolledBackSent |-> FALSE, asyncLocked |-> {}]
+          tsoAtCommit |-> 0, async |-> FALSE, onepcSets |-> {}, otherSets |-> {}, rolledBackSent |-> FALSE, asyncLocked |-> {}, asyncKnown |-> {}, onepcDone |-> FALSE]
 T(s) == Get(tx, s, NewTx)
 Bad(rule, detail) == PrintT(<<"MISMATCH", pos, rule, detail>>)
 Check(cond, rule, detail) == IF cond THEN TRUE ELSE Bad(rule, detail)
@@ -43,6 +43,8 @@ ExpOp(b, pess) ==
 ExpAssert(b, alevel) == IF alevel = "off" THEN "None" ELSE IF b.aex THEN "Exist" ELSE IF b.anex THEN "NotExist" ELSE "None"
 ExpAct(b, pess) == IF b.locked /\ pess THEN "pess" ELSE IF b.pcc THEN "constraint" ELSE "skip"
 MutBufKeys(t) == {k \in BufKeys(t.buffer) : ExpOp(BufEntry(t.buffer, k), t.bufPess) # "skip"}
+\* the keys a commit has to lock: every buffered mutation but the non-locking existence checks
+LockBufKeys(t) == {k \in MutBufKeys(t) : ExpOp(BufEntry(t.buffer, k), t.bufPess) # "CheckNotExists"}
 ContentOK(t, m) ==
   /\ m.k \in MutBufKeys(t)
   /\ LET b == BufEntry(t.buffer, m.k) IN
@@ -70,11 +72,19 @@ OnPrewrite(e) ==
                       !.async = @ \/ r.async, !.onepcSets = IF r.onepc THEN @ \cup {ks} ELSE @,
                       \* keys the store did lock as async-commit locks - whether or not the client learned it
                       !.asyncLocked = IF r.async /\ RespOK(e) /\ e.resp.minc > 0 THEN @ \cup (ks \ cne) ELSE @,
+                      \* ... and the keys of which the client learned it; a one-phase commit the client learned of
+                      !.asyncKnown = IF r.async /\ RespOK(e) /\ Delivered(e) /\ e.resp.minc > 0 THEN @ \cup (ks \ cne) ELSE @,
+                      !.onepcDone = @ \/ (r.onepc /\ RespOK(e) /\ Delivered(e) /\ e.resp.onepc_commit > 0),
                       !.otherSets = IF ~r.onepc THEN @ \cup {ks} ELSE @]
   IN /\ tx' = Ext(tx, s, t2)
      /\ Check(Cardinality(t2.primaries) = 1, "prewrites of one transaction name different primaries", <<s, t2.primaries>>)
      /\ Check(~t.primaryMaybe, "a prewrite is sent after the primary commit may have taken effect", s)
      /\ (r.async /\ r.primary \in ks) => Check(SetOf(r.secondaries) \cap {r.primary} = {}, "async primary lists itself as a secondary", s)
+     \* the secondaries a resolver will ask about are exactly the other keys that get locked: a key listed but never locked
+     \* reads as "missing" and rolls a committed transaction back, a locked key not listed is left out of the decision
+     /\ (r.async /\ r.primary \in ks /\ t.hasBuffer) =>
+          Check(SetOf(r.secondaries) = LockBufKeys(t) \ {r.primary}, "an async-commit primary does not list exactly the other locked keys as its secondaries",
+                <<s, SetOf(r.secondaries), LockBufKeys(t) \ {r.primary}>>)
      /\ Check(r.minc = 0 \/ r.minc > s, "min-commit-ts of a prewrite is not above the start ts", <<s, r.minc>>)
      \* one-phase commit is attempted with one prewrite request only: a request asking for it carries the same keys as every
      \* earlier one that asked (a re-send), and no prewrite without the flag went before it (after a fall-back to two-phase
@@ -104,8 +114,6 @@ OnCommit(e) ==
      /\ Check(\A m \in t.mincs : r.commit >= m, "commit ts below a min-commit-ts returned by a prewrite", <<s, r.commit, t.mincs>>)
      /\ Check(t.tsoAtCommit = 0 \/ r.commit > t.tsoAtCommit, "commit ts does not exceed the timestamps issued before Commit was called", <<s, r.commit, t.tsoAtCommit>>)
 
-\* the keys a commit has to lock: every buffered mutation but the non-locking existence checks
-LockBufKeys(t) == {k \in MutBufKeys(t) : ExpOp(BufEntry(t.buffer, k), t.bufPess) # "CheckNotExists"}
 OnRollback(e) ==
   LET s == e.req.start  t == T(s)
   IN /\ tx' = Ext(tx, s, [t EXCEPT !.rolledBackSent = TRUE])
@@ -124,6 +132,9 @@ OnCheckTxnStatus(e) ==
   IN /\ status' = Ext(status, s, Get(status, s, {}) \cup st)
      /\ Check(r.current = MaxTs \/ r.current <= maxTso, "status check carries a current ts the oracle never issued", <<s, r.current, maxTso>>)
      /\ Check(r.current # MaxTs \/ r.caller = 0 \/ ttl = 0, "a live lock is checked with current ts = max (forced expiry) outside GC", <<s, ttl>>)
+     \* a reader that meets a live lock names its own snapshot ts, so that the store can push the lock's min-commit-ts above it;
+     \* the reserved value "max" (no snapshot of these workloads reads at it) makes the store skip the push and the reader skip the lock
+     /\ Check(r.caller = 0 \/ r.caller <= maxTso, "status check carries a caller start ts the oracle never issued (the lock's min-commit-ts cannot be pushed above the reader)", <<s, r.caller, maxTso>>)
      /\ Check(~r.rb \/ r.current = MaxTs \/ ttl < 0 \/ Phys(s) + ttl < Phys(maxTso) + 1,
               "rollback-if-not-exist requested before the lock's ttl elapsed on the resolver's clock", <<s, ttl, maxTso>>)
 OnCheckSecondary(e) ==
@@ -176,6 +187,12 @@ Next ==
             /\ UNCHANGED <<status, maxTso, idOf, lockTtl, asyn>>
        [] e.ev = "api_ret" /\ e.c \in {"commit", "rollback"} /\ e.txn \in DOMAIN idOf ->
             /\ tx' = Ext(tx, idOf[e.txn], [T(idOf[e.txn]) EXCEPT !.ended = TRUE])
+            \* success is announced only past the commit point: the primary's commit succeeded, or the store committed in one
+            \* phase, or - async commit - the client knows every key to carry its async-commit lock
+            /\ LET t == T(idOf[e.txn]) IN
+               (e.c = "commit" /\ e.class = "nil" /\ t.hasBuffer /\ LockBufKeys(t) # {}) =>
+                  Check(t.primaryOK \/ t.onepcDone \/ (t.async /\ LockBufKeys(t) \subseteq t.asyncKnown),
+                        "Commit answered success before the transaction passed its commit point", <<idOf[e.txn], t.primaryOK, t.onepcDone, t.asyncKnown, LockBufKeys(t)>>)
             /\ UNCHANGED <<status, maxTso, idOf, lockTtl, asyn>>
        [] e.ev = "rpc" ->
             /\ lockTtl' = NoteTtls(e) /\ asyn' = NoteAsync(e)
